@@ -149,11 +149,71 @@ package base
 //@   ensures [C02] empty: n == 0 ==> result.1 != nil && !result.2
 //@   modifies frame evalframe
 
-//@ func (*Expression).Evaluate
+// exact three-way comparison of two integers of any signed/unsigned kind (C01): ilt/ieq compare the 65-bit extensions
+//@ func compareIntegers
 //@   props C01
-//@   ensures result.1 != nil ==> result.0 == RV_zero()
+//@   arith bv
+//@   ensures [C01] integers: result.1 <==> (iK(rv_kind(lv)) && iK(rv_kind(rv)))
+//@   ensures [C01] exact: result.1 ==> (result.0 == -1 <==> ilt(lv, rv)) && (result.0 == 1 <==> ilt(rv, lv)) && (result.0 == 0 <==> ieq(lv, rv)) && (result.0 == -1 || result.0 == 0 || result.0 == 1)
+//@   modifies nothing
+//@   nopanic
+
+// logical / comparison / negation node (C01). Evaluation order: arithmetic child, atom child, then the expression
+// children left before right, each once; the first error is returned as it is. The un-negated value is the arithmetic
+// child's, else the atom's, else: the single child's value, `&&`/`||` of two booleans, or the comparison of two strings
+// (lexicographic), two numbers (exact when both are integers, in float64 otherwise) or two booleans (== and != only);
+// `!` negates a boolean; everything else is an error that cites the node's line (C20)
+//@ func (*Expression).Evaluate
+//@   mergejoins
+//@   props C01 C20 C09
+//@   arith bv
+//@   requires e != nil
+//@   assume (e.LogicalOperator != "" || e.ComparisonOperator != "") ==> e.ExpressionLeft != nil && e.ExpressionRight != nil
+//@   assume !(e.LogicalOperator != "" && e.ComparisonOperator != "")
+//@   ghost nm int = 0
+//@   ghost na int = 0
+//@   ghost nx int = 0
+//@   ghost MV rv = RV_zero()
+//@   ghost AV rv = RV_zero()
+//@   ghost X1 rv = RV_zero()
+//@   ghost X2 rv = RV_zero()
+//@   ghost merr error = nil
+//@   ghost aerr error = nil
+//@   ghost xerr error = nil
+//@   oncall (*MathExpression).Evaluate
+//@     assert [C01] mathfirst: nm == 0 && na == 0 && nx == 0 && recv == e.MathExpression
+//@     after MV := callresult.0
+//@     after merr := callresult.1
+//@     after nm := nm + 1
+//@   oncall (*ExpressionAtom).Evaluate
+//@     assert [C01] atomsecond: merr == nil && na == 0 && nx == 0 && recv == e.ExpressionAtom
+//@     after AV := callresult.0
+//@     after aerr := callresult.1
+//@     after na := na + 1
+//@   oncall (*Expression).Evaluate
+//@     assert [C01] leftthenright: merr == nil && aerr == nil && ((nx == 0 && recv == e.ExpressionLeft) || (nx == 1 && xerr == nil && recv == e.ExpressionRight))
+//@     after X2 := ite(nx == 1, callresult.0, X2)
+//@     after X1 := ite(nx == 0, callresult.0, X1)
+//@     after xerr := callresult.1
+//@     after nx := nx + 1
+//@   ensures [C01] matherr: merr != nil ==> result.1 == merr && na == 0 && nx == 0
+//@   ensures [C01] atomerr: aerr != nil ==> result.1 == aerr && nx == 0
+//@   ensures [C01] childerr: xerr != nil ==> result.1 == xerr
+//@   ensures [C01] failzero: result.1 != nil ==> result.0 == RV_zero()
+//@   ensures [C20] cites: merr == nil && aerr == nil && xerr == nil && result.1 != nil ==> cite(result.1) == e.LineNum
+//@   ensures [C01] evaluated: merr == nil && aerr == nil && xerr == nil ==> (nm == 1 <==> e.MathExpression != nil) && (na == 1 <==> e.ExpressionAtom != nil) && (e.LogicalOperator != "" || e.ComparisonOperator != "" ==> nx == 2) && (e.ExpressionRight == nil && e.ExpressionLeft != nil ==> nx == 1)
+//@   ensures [C01] math: merr == nil && aerr == nil && xerr == nil && nm == 1 && rv_valid(MV) && e.LogicalOperator == "" && e.ComparisonOperator == "" ==> notApplied(result.0, result.1 == nil, e.NotOperator == "!", MV)
+//@   ensures [C01] atom: merr == nil && aerr == nil && xerr == nil && (nm == 0 || !rv_valid(MV)) && na == 1 && rv_valid(AV) && e.LogicalOperator == "" && e.ComparisonOperator == "" ==> notApplied(result.0, result.1 == nil, e.NotOperator == "!", AV)
+//@   ensures [C01] single: merr == nil && xerr == nil && nm == 0 && na == 0 && e.ExpressionRight == nil && e.ExpressionLeft != nil ==> (rv_valid(X1) ==> notApplied(result.0, result.1 == nil, e.NotOperator == "!", X1)) && (!rv_valid(X1) ==> result.1 != nil)
+//@   ensures [C01] logic: xerr == nil && nm == 0 && na == 0 && e.LogicalOperator != "" ==> (boolPair(X1, X2) && e.LogicalOperator == "&&" ==> boolOutcome(result.0, result.1 == nil, e.NotOperator == "!", rv_bool(X1) && rv_bool(X2))) && (boolPair(X1, X2) && e.LogicalOperator == "||" ==> boolOutcome(result.0, result.1 == nil, e.NotOperator == "!", rv_bool(X1) || rv_bool(X2))) && (!boolPair(X1, X2) || (e.LogicalOperator != "&&" && e.LogicalOperator != "||") ==> result.1 != nil)
+//@   ensures [C01] strings: xerr == nil && nm == 0 && na == 0 && e.ComparisonOperator != "" && strPair(X1, X2) ==> (e.ComparisonOperator == "==" ==> boolOutcome(result.0, result.1 == nil, e.NotOperator == "!", rv_str(X1) == rv_str(X2))) && (e.ComparisonOperator == "!=" ==> boolOutcome(result.0, result.1 == nil, e.NotOperator == "!", rv_str(X1) != rv_str(X2))) && (e.ComparisonOperator == "<" ==> boolOutcome(result.0, result.1 == nil, e.NotOperator == "!", strlt(rv_str(X1), rv_str(X2)))) && (e.ComparisonOperator == ">" ==> boolOutcome(result.0, result.1 == nil, e.NotOperator == "!", strlt(rv_str(X2), rv_str(X1)))) && (e.ComparisonOperator == "<=" ==> boolOutcome(result.0, result.1 == nil, e.NotOperator == "!", !strlt(rv_str(X2), rv_str(X1)))) && (e.ComparisonOperator == ">=" ==> boolOutcome(result.0, result.1 == nil, e.NotOperator == "!", !strlt(rv_str(X1), rv_str(X2))))
+//@   ensures [C01] integers: xerr == nil && nm == 0 && na == 0 && e.ComparisonOperator != "" && iK(rv_kind(X1)) && iK(rv_kind(X2)) ==> (e.ComparisonOperator == "==" ==> boolOutcome(result.0, result.1 == nil, e.NotOperator == "!", ieq(X1, X2))) && (e.ComparisonOperator == "!=" ==> boolOutcome(result.0, result.1 == nil, e.NotOperator == "!", !ieq(X1, X2))) && (e.ComparisonOperator == "<" ==> boolOutcome(result.0, result.1 == nil, e.NotOperator == "!", ilt(X1, X2))) && (e.ComparisonOperator == ">" ==> boolOutcome(result.0, result.1 == nil, e.NotOperator == "!", ilt(X2, X1))) && (e.ComparisonOperator == "<=" ==> boolOutcome(result.0, result.1 == nil, e.NotOperator == "!", !ilt(X2, X1))) && (e.ComparisonOperator == ">=" ==> boolOutcome(result.0, result.1 == nil, e.NotOperator == "!", !ilt(X1, X2)))
+//@   ensures [C01] floats: xerr == nil && nm == 0 && na == 0 && e.ComparisonOperator != "" && cmpK(rv_kind(X1)) && cmpK(rv_kind(X2)) && !(iK(rv_kind(X1)) && iK(rv_kind(X2))) ==> (e.ComparisonOperator == "==" ==> boolOutcome(result.0, result.1 == nil, e.NotOperator == "!", feq(rvtof(X1), rvtof(X2)))) && (e.ComparisonOperator == "!=" ==> boolOutcome(result.0, result.1 == nil, e.NotOperator == "!", !feq(rvtof(X1), rvtof(X2)))) && (e.ComparisonOperator == "<" ==> boolOutcome(result.0, result.1 == nil, e.NotOperator == "!", flt(rvtof(X1), rvtof(X2)))) && (e.ComparisonOperator == ">" ==> boolOutcome(result.0, result.1 == nil, e.NotOperator == "!", flt(rvtof(X2), rvtof(X1)))) && (e.ComparisonOperator == "<=" ==> boolOutcome(result.0, result.1 == nil, e.NotOperator == "!", fle(rvtof(X1), rvtof(X2)))) && (e.ComparisonOperator == ">=" ==> boolOutcome(result.0, result.1 == nil, e.NotOperator == "!", fle(rvtof(X2), rvtof(X1))))
+//@   ensures [C01] booleans: xerr == nil && nm == 0 && na == 0 && e.ComparisonOperator != "" && boolPair(X1, X2) ==> (e.ComparisonOperator == "==" ==> boolOutcome(result.0, result.1 == nil, e.NotOperator == "!", rv_bool(X1) == rv_bool(X2))) && (e.ComparisonOperator == "!=" ==> boolOutcome(result.0, result.1 == nil, e.NotOperator == "!", rv_bool(X1) != rv_bool(X2))) && (e.ComparisonOperator != "==" && e.ComparisonOperator != "!=" ==> result.1 != nil)
+//@   ensures [C01] illtyped: xerr == nil && nm == 0 && na == 0 && e.ComparisonOperator != "" && !strPair(X1, X2) && !(cmpK(rv_kind(X1)) && cmpK(rv_kind(X2))) && !boolPair(X1, X2) ==> result.1 != nil
+//@   ensures [C01] unknownop: xerr == nil && nm == 0 && na == 0 && e.ComparisonOperator != "" && e.ComparisonOperator != "==" && e.ComparisonOperator != "!=" && e.ComparisonOperator != "<" && e.ComparisonOperator != ">" && e.ComparisonOperator != "<=" && e.ComparisonOperator != ">=" ==> result.1 != nil
 //@   modifies frame evalframe
-//@   trusted expression contracts pending
+//@   nopanic own
 
 //@ func (*ElseStmt).Evaluate
 //@   props C02
@@ -177,6 +237,8 @@ package base
 //   ran     a block was run (at most one)
 //@ func (*IfStmt).Evaluate
 //@   props C02
+//@   assume i.Expression != nil
+//@   assume forall qi :: lo(i.ElseIfStmtList) <= qi && qi < hi(i.ElseIfStmtList) ==> at(i.ElseIfStmtList, qi) != nil && at(i.ElseIfStmtList, qi).Expression != nil
 //@   ghost nexp int = 0
 //@   ghost lastc bool = false
 //@   ghost lerr bool = false
@@ -215,6 +277,7 @@ package base
 //   phase: 0 init pending, 1 cond pending, 2 body pending (cond was true), 3 step pending, 9 finished
 //@ func (*ForStmt).Evaluate
 //@   props C02 C09
+//@   assume forStmt.Expression != nil
 //@   assume forall qi :: 0 <= qi && qi < len(forStmt.Assignments) ==> forStmt.Assignments[qi] != nil
 //@   ghost phase int = 0
 //@   ghost be error = nil
@@ -332,11 +395,91 @@ package base
 //@   ensures [C02] plainshape: nwrite == 1 && (a.AssignOperator == "=" || a.AssignOperator == ":=") ==> nop == 0 && nread == 0
 //@   modifies frame evalframe
 
-//@ func (*MathExpression).Evaluate
+// literal / metadata constant (C01): the stored value, unchanged
+//@ func (*Constant).Evaluate
 //@   props C01
-//@   ensures result.1 != nil ==> result.0 == RV_zero()
+//@   requires cons != nil
+//@   ensures [C01] stored: result.0 == cons.ConstantValue && result.1 == nil
+//@   modifies nothing
+//@   nopanic
+
+// atom (C01): exactly one alternative is evaluated, chosen in the fixed order variable, constant, function call,
+// method call, map/slice/array element, three-level call; its value and error are passed through unchanged
+//@ func (*ExpressionAtom).Evaluate
+//@   props C01 C09
+//@   requires e != nil
+//@   ghost n int = 0
+//@   ghost cv rv = RV_zero()
+//@   ghost ce error = nil
+//@   oncall (*context.DataContext).GetValue
+//@     assert [C01] variable: n == 0 && len(e.Variable) > 0 && arg1 == e.Variable && arg0 == Vars && recv == dc
+//@     after n := n + 1
+//@     after cv := callresult.0
+//@     after ce := callresult.1
+//@   oncall (*Constant).Evaluate
+//@     assert [C01] constant: n == 0 && len(e.Variable) == 0 && recv == e.Constant
+//@     after n := n + 1
+//@     after cv := callresult.0
+//@     after ce := callresult.1
+//@   oncall (*FunctionCall).Evaluate
+//@     assert [C01] function: n == 0 && len(e.Variable) == 0 && e.Constant == nil && recv == e.FunctionCall
+//@     after n := n + 1
+//@     after cv := callresult.0
+//@     after ce := callresult.1
+//@   oncall (*MethodCall).Evaluate
+//@     assert [C01] method: n == 0 && len(e.Variable) == 0 && e.Constant == nil && e.FunctionCall == nil && recv == e.MethodCall
+//@     after n := n + 1
+//@     after cv := callresult.0
+//@     after ce := callresult.1
+//@   oncall (*MapVar).Evaluate
+//@     assert [C01] element: n == 0 && len(e.Variable) == 0 && e.Constant == nil && e.FunctionCall == nil && e.MethodCall == nil && recv == e.MapVar
+//@     after n := n + 1
+//@     after cv := callresult.0
+//@     after ce := callresult.1
+//@   oncall (*ThreeLevelCall).Evaluate
+//@     assert [C01] threelevel: n == 0 && len(e.Variable) == 0 && e.Constant == nil && e.FunctionCall == nil && e.MethodCall == nil && e.MapVar == nil && recv == e.ThreeLevelCall
+//@     after n := n + 1
+//@     after cv := callresult.0
+//@     after ce := callresult.1
+//@   ensures [C01] passthrough: n == 1 ==> result.0 == cv && result.1 == ce
+//@   ensures [C01] one: len(e.Variable) > 0 || e.Constant != nil || e.FunctionCall != nil || e.MethodCall != nil || e.MapVar != nil || e.ThreeLevelCall != nil ==> n == 1
+//@   ensures [C01] none: len(e.Variable) == 0 && e.Constant == nil && e.FunctionCall == nil && e.MethodCall == nil && e.MapVar == nil && e.ThreeLevelCall == nil ==> n == 0 && result.1 != nil && result.0 == RV_zero()
 //@   modifies frame evalframe
-//@   trusted expression contracts pending
+
+// arithmetic node (C01): an atom is passed through; a single child is passed through; a binary node evaluates
+// left then right (each once), a child error is returned as it is, and the value is the operator applied to the
+// two child values per the kind rules of core.Add/Sub/Mul/Div; every error created here cites the node's line (C20)
+//@ func (*MathExpression).Evaluate
+//@   props C01 C20 C09
+//@   requires e != nil
+//@   assume e.ExpressionAtom != nil || e.MathExpressionLeft != nil
+//@   ghost n int = 0
+//@   ghost LV rv = RV_zero()
+//@   ghost RW rv = RV_zero()
+//@   ghost cerr error = nil
+//@   oncall (*ExpressionAtom).Evaluate
+//@     assert [C01] atomonly: n == 0 && recv == e.ExpressionAtom
+//@     after LV := callresult.0
+//@     after cerr := callresult.1
+//@     after n := 10
+//@   oncall (*MathExpression).Evaluate
+//@     assert [C01] leftthenright: e.ExpressionAtom == nil && ((n == 0 && recv == e.MathExpressionLeft) || (n == 1 && cerr == nil && recv == e.MathExpressionRight))
+//@     after RW := ite(n == 1, callresult.0, RW)
+//@     after LV := ite(n == 0, callresult.0, LV)
+//@     after cerr := callresult.1
+//@     after n := n + 1
+//@   ensures [C01] atom: e.ExpressionAtom != nil ==> n == 10 && result.0 == LV && result.1 == cerr
+//@   ensures [C01] single: e.ExpressionAtom == nil && e.MathExpressionRight == nil ==> n == 1 && result.0 == LV && result.1 == cerr
+//@   ensures [C01] childerr: e.ExpressionAtom == nil && e.MathExpressionRight != nil && cerr != nil ==> result.1 == cerr && result.0 == RV_zero()
+//@   ensures [C01] both: e.ExpressionAtom == nil && e.MathExpressionRight != nil && cerr == nil ==> n == 2
+//@   ensures [C01] failzero: e.ExpressionAtom == nil && e.MathExpressionRight != nil && result.1 != nil ==> result.0 == RV_zero()
+//@   ensures [C20] cites: e.ExpressionAtom == nil && e.MathExpressionRight != nil && cerr == nil && result.1 != nil ==> cite(result.1) == e.LineNum
+//@   ensures [C01] plus: n == 2 && cerr == nil && e.MathPmOperator == "+" ==> ((result.1 == nil) <==> (numPair(LV, RW) || strPair(LV, RW))) && (strPair(LV, RW) ==> rv_kind(result.0) == 24 && rv_str(result.0) == strcat(rv_str(LV), rv_str(RW))) && (numPair(LV, RW) ==> rv_kind(result.0) == arithKind(rv_kind(LV), rv_kind(RW)) && (rv_kind(result.0) != 14 ==> rv_bits(result.0) == wadd(rv_bits(LV), rv_bits(RW))) && (rv_kind(result.0) == 14 ==> fsame(rv_f64(result.0), fadd(rvtof(LV), rvtof(RW)))))
+//@   ensures [C01] minus: n == 2 && cerr == nil && e.MathPmOperator == "-" ==> ((result.1 == nil) <==> numPair(LV, RW)) && (numPair(LV, RW) ==> rv_kind(result.0) == arithKind(rv_kind(LV), rv_kind(RW)) && (rv_kind(result.0) != 14 ==> rv_bits(result.0) == wsub(rv_bits(LV), rv_bits(RW))) && (rv_kind(result.0) == 14 ==> fsame(rv_f64(result.0), fsub(rvtof(LV), rvtof(RW)))))
+//@   ensures [C01] times: n == 2 && cerr == nil && e.MathPmOperator != "+" && e.MathPmOperator != "-" && e.MathMdOperator == "*" ==> ((result.1 == nil) <==> numPair(LV, RW)) && (numPair(LV, RW) ==> rv_kind(result.0) == arithKind(rv_kind(LV), rv_kind(RW)) && (rv_kind(result.0) != 14 ==> rv_bits(result.0) == wmul(rv_bits(LV), rv_bits(RW))) && (rv_kind(result.0) == 14 ==> fsame(rv_f64(result.0), fmul(rvtof(LV), rvtof(RW)))))
+//@   ensures [C01] quotient: n == 2 && cerr == nil && e.MathPmOperator != "+" && e.MathPmOperator != "-" && e.MathMdOperator == "/" ==> ((result.1 == nil) <==> (numPair(LV, RW) && !divZero(RW))) && (result.1 == nil ==> rv_kind(result.0) == arithKind(rv_kind(LV), rv_kind(RW)) && (rv_kind(result.0) == 6 ==> rv_bits(result.0) == wsdiv(rv_bits(LV), rv_bits(RW))) && (rv_kind(result.0) == 11 ==> rv_bits(result.0) == wudiv(rv_bits(LV), rv_bits(RW))) && (rv_kind(result.0) == 14 ==> fsame(rv_f64(result.0), fdiv(rvtof(LV), rvtof(RW)))))
+//@   ensures [C01] nooperator: n == 2 && cerr == nil && e.MathPmOperator != "+" && e.MathPmOperator != "-" && e.MathMdOperator != "*" && e.MathMdOperator != "/" ==> result.1 != nil
+//@   modifies frame evalframe
 
 //@ func (*MapVar).Evaluate
 //@   props C03
